@@ -581,6 +581,69 @@ fn corruptions(file: &[u8]) -> Vec<(String, Vec<u8>)> {
     out
 }
 
+/// Family C: a synthetic ELF64 object whose symbol table and its string table are far apart (padding in between): laziness of
+/// symbol_table()/dynamic_symbol_table(), plus the generic stream == slice comparison.
+fn synthetic_gap_file(gap: usize, symtype: u32) -> Vec<u8> {
+    let mut f = vec![0u8; 64];
+    let sym_off = f.len();
+    f.extend((0..48u8).map(|i| i.wrapping_mul(3)));
+    f.extend(std::iter::repeat(0x5a).take(gap));
+    let str_off = f.len();
+    f.extend_from_slice(b"\0abc\0de\0");
+    let shoff = f.len();
+    let mut sh = |name: u32, ty: u32, off: usize, size: usize, link: u32, entsize: u64| {
+        let mut h = vec![0u8; 64];
+        h[0..4].copy_from_slice(&name.to_le_bytes());
+        h[4..8].copy_from_slice(&ty.to_le_bytes());
+        h[24..32].copy_from_slice(&(off as u64).to_le_bytes());
+        h[32..40].copy_from_slice(&(size as u64).to_le_bytes());
+        h[40..44].copy_from_slice(&link.to_le_bytes());
+        h[48..56].copy_from_slice(&1u64.to_le_bytes());
+        h[56..64].copy_from_slice(&entsize.to_le_bytes());
+        h
+    };
+    let hs = [sh(0, 0, 0, 0, 0, 0), sh(1, symtype, sym_off, 48, 2, 24), sh(5, 3, str_off, 8, 0, 0)];
+    for h in hs.iter() {
+        f.extend_from_slice(h);
+    }
+    f[0..4].copy_from_slice(b"\x7fELF");
+    f[4] = 2;
+    f[5] = 1;
+    f[6] = 1;
+    f[16] = 2;
+    f[18] = 62;
+    f[20] = 1;
+    f[40..48].copy_from_slice(&(shoff as u64).to_le_bytes());
+    f[52..54].copy_from_slice(&64u16.to_le_bytes());
+    f[58..60].copy_from_slice(&64u16.to_le_bytes());
+    f[60..62].copy_from_slice(&3u16.to_le_bytes());
+    f[62..64].copy_from_slice(&2u16.to_le_bytes());
+    f
+}
+
+fn run_family_c() -> usize {
+    let mut n = 0;
+    for gap in [0usize, 1, 100, 4096] {
+        for symtype in [2u32, 11] {
+            let f = synthetic_gap_file(gap, symtype);
+            let label = format!("synthetic object, {gap} bytes of padding between the symbol table and its string table (type {symtype})");
+            note(compare_file(&label, &f, usize::MAX, Fault::None, false));
+            // laziness of the dynamic symbol table query too
+            if symtype == 11 {
+                if let Ok(mut s) = ElfStream::<AnyEndian, _>::open_stream(ScriptReader::new(&f, usize::MAX, Fault::None, false)) {
+                    BYTES_READ.store(0, Ordering::Relaxed);
+                    let _ = s.dynamic_symbol_table();
+                    if BYTES_READ.load(Ordering::Relaxed) > 56 {
+                        note::<()>(Err(Failure(format!("C08 {label}: dynamic_symbol_table() read {} bytes, more than the symbol table and its string table (56)", BYTES_READ.load(Ordering::Relaxed)))));
+                    }
+                }
+            }
+            n += 1;
+        }
+    }
+    n
+}
+
 fn run_family_b() -> Result<usize, Failure> {
     let dir = "/repo/sample-objects";
     let mut n = 0;
@@ -643,6 +706,7 @@ fn main() {
         }
         Ok(n) => println!("family B (sample objects and corruptions, accessors, fault schedules): {n} scenarios run"),
     }
+    println!("family C (synthetic objects with padding between tables): {} scenarios run", run_family_c());
     let fails = unsafe { &*std::ptr::addr_of!(FAILS) };
     for f in fails {
         println!("FAIL {f}");
